@@ -984,7 +984,9 @@ where
     /// # Errors
     /// Fails because of any IO errors.
     pub async fn fsyncdata(&self) -> IOResult<()> {
-        self.inner.fsyncdata().await
+        // Explicit request: sync unconditionally (Inner::fsyncdata is the background variant that
+        // skips the sync below the dirty bytes limit or when another sync is in progress)
+        self.inner.safe.read().await.fsyncdata().await
     }
 
     /// Force updates active blob on new one to dump index of old one on disk and free RAM.
